@@ -154,3 +154,10 @@ CHECKS = {
 }
 
 NOT_YET = "check not built yet (build in progress; see DESIGN.md §5 for the plan)"
+
+NOTES = ("Model-based verification with an explicit TLA+ specification (spec/*.tla), three uses of TLC: model checking of MC_* instances, "
+         "trace validation of recorded executions of the real code (Trace_* specs, drivers in harness/drivers), and replay of TLC-simulated behaviours into the "
+         "real objects. Entry point: bin/check <ID> --tier quick|thorough [--replay FILE]. DESIGN.md section 11 describes what was built, the six genuine "
+         "defects repaired in /repo (fix: commits), the open known finding D12b (known_findings.json) and which checks catch which of the 40 independently seeded "
+         "changes (seeded/). bin/selftest demonstrates the binding (corrupted traces are rejected); bin/check-extra X01 covers the multiplicative module "
+         "(specification growth beyond the listed properties). Exit codes: 0 held, 1 VIOLATION, 2 machinery failure.")
